@@ -41,7 +41,10 @@ def make(prop, monitors):
                     "replay_cmd": "cd /verif/harness && go build -race -tags verif -o /var/tmp/hx ./cmd/%s && "
                                   "POOL_STRESS=1 /var/tmp/hx gen -seed %d -tier %s" % (main, ctx.seed, ctx.tier)})
                 ctx.violations.append((rp, ""))
-            comp = V.Component(drv, harness=main)
+            # replay with the property's own driver executable (built by standard_check) so that a module of another
+            # property that does not compile cannot take this pass down; the common bngdrv only as a fallback
+            own = "drv-" + prop.lower()
+            comp = V.Component(drv, harness=main, drv_bin=own if ctx.exes.get(own) else "bngdrv")
             lines, rc, err = ctx.drv(comp.drv, tp, comp.drv_bin)
             if rc != 0:
                 ctx.broken.append(("driver", "bngdrv %s (stress) exited %d: %s" % (drv, rc, err[-300:])))
